@@ -209,6 +209,35 @@ fn vp_native_peer_is_the_url_host_body() {
         std::thread::sleep(std::time::Duration::from_millis(50));
         assert_eq!(log4.lock().unwrap().len(), before4, "the request for {}:{} was sent to 127.0.0.1:{} ({:?})", host, p4, p4, res.map(|r| r.status()));
     }
+    // a host *name*: several listeners on the same name and different ports, asked one after the other on this thread and across a
+    // redirect - every request arrives at the port its own URL names (nothing learnt while dialling one URL decides another)
+    {
+        let names = ["localhost", "LOCALHOST", "localhost."];
+        let logs: Vec<Arc<Mutex<Vec<Seen>>>> = (0..3).map(|_| Arc::new(Mutex::new(Vec::new()))).collect();
+        let ports: Arc<Mutex<Vec<u16>>> = Arc::new(Mutex::new(Vec::new()));
+        let mut ps = Vec::new();
+        for (i, log) in logs.iter().enumerate() {
+            let ports2 = ports.clone();
+            ps.push(serve(log.clone(), move |line, _| {
+                if line.contains("/hop") { let all = ports2.lock().unwrap().clone(); resp(307, Some(&format!("http://localhost:{}/landed", all[(i + 1) % 3])), "") } else { resp(200, None, &format!("server{}", i)) } }));
+        }
+        *ports.lock().unwrap() = ps.clone();
+        let order = [0usize, 1, 0, 2, 2, 1, 0];
+        for (step, &i) in order.iter().enumerate() { for name in names {
+            let before: Vec<usize> = logs.iter().map(|l| l.lock().unwrap().len()).collect();
+            let res = direct.get(format!("http://{}:{}/step{}", name, ps[i], step)).send();
+            cases += 1; crate::verif_native_watchdog::progress();
+            if name == "localhost." && res.is_err() { continue; }   // a resolver may not know the rooted form
+            let r = res.unwrap_or_else(|e| panic!("http://{}:{}/ : {}", name, ps[i], e));
+            assert_eq!(r.text().unwrap(), format!("server{}", i), "request {} for {}:{} was answered by another listener", step, name, ps[i]);
+            settle(&logs[i], before[i] + 1);
+            for (k, l) in logs.iter().enumerate() { assert_eq!(l.lock().unwrap().len(), before[k] + (k == i) as usize, "request {} for {}:{}: listener {} (port {}) saw {} new requests", step, name, ps[i], k, ps[k], l.lock().unwrap().len() - before[k]); }
+        } }
+        for i in 0..3usize {
+            let r = direct.post(format!("http://localhost:{}/hop", ps[i])).text("b").send().unwrap(); cases += 1; crate::verif_native_watchdog::progress();
+            assert_eq!(r.text().unwrap(), format!("server{}", (i + 1) % 3), "a redirect from localhost:{} to localhost:{} ended at another listener", ps[i], ps[(i + 1) % 3]);
+        }
+    }
     println!("VP-NATIVE peer_is_the_url_host cases={}", cases);
 }
 
